@@ -459,6 +459,23 @@ def judge_text(program, text, lang, stage, col):
                 ('omitted-but-carried' if omitted > want_o else 'count-differs'))
             bad(rule, cls=name, omitted_in_text=omitted, explicit_in_text=explicit, inferable_in_program=want_o,
                 explicit_in_program=want_e, super_calls=sup_e)
+    # the text of explicit constructor type arguments (Kotlin / Scala renderer): every `Name<args>(` the program carries
+    # occurs at least as often in the text (superclass constructor calls and annotations only add occurrences)
+    if lang in ('kotlin', 'scala'):
+        want_txt = {}
+        for n in inv.news:
+            ct = n.class_type
+            if getattr(ct, 'name', None) in generic and hasattr(ct, 'type_args') and not getattr(ct, 'can_infer_type_args', False):
+                r = render(ct, lang)
+                if r is not None:
+                    key = re.sub(r'\s+', '', r) + '('
+                    want_txt[key] = want_txt.get(key, 0) + 1
+        if want_txt:
+            flat = re.sub(r'\s+', '', T)
+            for key, k in sorted(want_txt.items()):
+                item()
+                if flat.count(key) < k:
+                    bad('annotation/constructor-type-arguments-text', expected=key, carried=k, printed=flat.count(key))
     # ---------------- generic call type arguments
     if lang in ('kotlin', 'scala'):
         gfun = {f.name for f, _, _ in inv.functions if f.type_parameters}
@@ -650,12 +667,14 @@ def make_judge(col):
         import random
         seed0 = case.seed or len(case.tape or []) or 1
         stages = []
+        # one translator object per program, reused for every stage - as the driver does (gen_program)
+        tr = boot.translator_class(lang)('src.pkg', {'cast_numbers': False})
         try:
-            stages.append(('G', pg.translate(prog, lang)))
+            stages.append(('G', pg.translate(prog, lang, translator=tr)))
             boot._state['utils'].random.r = random.Random(seed0 * 5 + 1)
             te = pg.erase(prog, lang)
             if te.is_transformed:
-                stages.append(('E', pg.translate(prog, lang)))
+                stages.append(('E', pg.translate(prog, lang, translator=tr)))
         except Exception as e:
             # erasure stopped half-way (budget or crash): prog is partly erased and matches neither text - the G stage is
             # judged on the fresh regeneration below, the E stage is dropped
@@ -688,7 +707,7 @@ def make_judge(col):
         try:
             to = pg.overwrite(prog, lang)
             if to.is_transformed:
-                to_text = pg.translate(prog, lang)
+                to_text = pg.translate(prog, lang, translator=tr)
                 viols, items, inv = judge_text(prog, to_text, lang, 'O', col)
                 total_items += items
                 out += [(s, dict(d, stage='O')) for s, d in viols]
